@@ -110,6 +110,9 @@ def occ? : Sexp → Option Occ
 def src? : Sexp → Option Src
   | .list [.atom "src", a, ds, an, .list os] => do
       pure { args := ← arguments? a, decorators := ← natList? ds, annRefs := ← natList? an, occs := ← os.mapM occ? }
+  | .list [.atom "src", a, ds, an, .list os, lam, doc] => do
+      pure { args := ← arguments? a, decorators := ← natList? ds, annRefs := ← natList? an, occs := ← os.mapM occ?,
+             lambdaName := ← optName? lam, doc := ← optName? doc }
   | _ => none
 
 def resultSexp : Except Err Fn → Sexp
@@ -117,6 +120,7 @@ def resultSexp : Except Err Fn → Sexp
   | .error (.keyError n) => .list [.atom "error", .atom "keyError", Sexp.ofNat n]
   | .error .closureMismatch => .list [.atom "error", .atom "closureMismatch"]
   | .error (.nameError n) => .list [.atom "error", .atom "nameError", Sexp.ofNat n]
+  | .error .protocol => .list [.atom "error", .atom "protocol"]
 
 def decoSexp : Deco → Sexp
   | .user i => Sexp.ofNat i
@@ -135,6 +139,26 @@ def entity? : Sexp → Option Entity
 partial def scope? : Sexp → Option Scope
   | .list [.atom "scope", b, g, u, .list cs] => do
       pure (.mk (← natList? b) (← natList? g) (← natList? u) (← cs.mapM scope?))
+  | _ => none
+
+def attrSexp : Attr → Sexp
+  | .agModule => .atom "ag_module" | .agSourceMap => .atom "ag_source_map" | .autographInfo => .atom "autograph_info__"
+  | .user n => .list [.atom "user", Sexp.ofNat n]
+
+def whyName : Why → Sexp
+  | .params => .atom "params" | .freevarsDup => .atom "freevarsDup" | .closureLen => .atom "closureLen"
+  | .freeUnreferenced => .atom "freeUnreferenced" | .nameCollision => .atom "nameCollision"
+  | .directiveOnly => .atom "directiveOnly" | .annotation => .atom "annotation" | .cleared => .atom "cleared"
+
+def fnOfId (n : Nat) : Fn :=
+  { code := { params := [], freevars := [] }, closure := [], globals := 0, defaults := none, kwdefaults := none, name := n }
+
+partial def pyCallable? : Sexp → Option PyCallable
+  | .list [.atom "function", i] => i.nat?.map (fun n => .function (fnOfId n))
+  | .list [.atom "method", s, i] => do pure (.boundMethod (← s.nat?) (fnOfId (← i.nat?)))
+  | .list [.atom "partial", c, .list a, .list k] => do pure (.partialOf (← pyCallable? c) (← nats? a) (← k.mapM kwPair?))
+  | .list [.atom "object", o, i] => do pure (.callableObject (← o.nat?) (fnOfId (← i.nat?)))
+  | .list [.atom "other", i] => i.nat?.map .other
   | _ => none
 
 def reeval : Nat → ObjId := fun i => 1000000 + i
@@ -183,6 +207,29 @@ def handlers : List (String × (List Sexp → String)) := [
       let [x] := a | none
       let sc ← scope? x
       pure (toString (Sexp.list ((sc.allFreevars []).map fun l => .list (l.map Sexp.ofNat))))),
+  -- which hypotheses of the proved fragment fail: (extra) newname inner (modulenames) <src> <callable> -> (why tag…)
+  ("c09.why", fun a => run do
+      let [x, n, i, m, s, c] := a | none
+      let x ← natList? x; let n ← n.nat?; let i ← i.nat?; let m ← natList? m; let s ← src? s; let c ← callable? c
+      pure (toString (Sexp.list (.atom "why" :: (why x n i m s c).map whyName)))),
+  -- to_graph through the extracted statement list, with name / qualname / module / doc / __dict__:
+  --   (extra) newname inner outer (modulenames) <src+meta> <callable>
+  ("c09.tograph", fun a => run do
+      let [x, n, i, o, m, s, c] := a | none
+      let x ← natList? x; let n ← n.nat?; let i ← i.nat?; let o ← o.nat?; let m ← natList? m; let s ← src? s; let c ← callable? c
+      match toGraph (fun g => g) reeval x n i o m s c with
+      | .ok g => pure (toString (Sexp.list [.atom "ok", fnSexp g,
+          .list [.atom "meta", Sexp.ofNat g.name, .list (g.qualname.map Sexp.ofNat), Sexp.ofNat g.module,
+                 optNameSexp g.doc, .list (g.dict.map attrSexp)]]))
+      | .error e => pure (toString (resultSexp (.error e)))),
+  -- converted_call's unwrapping: <pycallable> (args) ((k v)…) -> ((target id|none) (args…) (kwargs (k v)…))
+  ("c09.unwrap", fun a => run do
+      let [c, .list xs, .list ks] := a | none
+      let u := unwrap (← pyCallable? c) (← nats? xs) (← ks.mapM kwPair?)
+      pure (toString (Sexp.list [
+        .list [.atom "target", match u.target with | some f => Sexp.ofNat f.name | none => .atom "none"],
+        .list (.atom "args" :: u.args.map Sexp.ofNat),
+        .list (.atom "kwargs" :: u.kwargs.map fun p => .list [Sexp.ofNat p.1, Sexp.ofNat p.2])]))),
   ("c09.deco", fun a => run do
       let [l, .list ds] := a | none
       pure (toString (Sexp.list ((functionsPassDecorators (← l.nat?) (← ds.mapM deco?)).map decoSexp)))),
